@@ -40,6 +40,42 @@ def all_sources(ctx, live=True):
     return srcs
 
 
+def prepass(ctx, exe, srcs):
+    """load every source once with every type kept: returns {source id: set of object types present}; synthetic families are also
+    exported to XML (v3 and v2 formats) as additional 'generated XML' sources"""
+    gdir = ctx.path("genxml")
+    os.makedirs(gdir, exist_ok=True)
+    behs, gen = [], []
+    for k, s in enumerate(srcs):
+        lines = ["reset 1"] + corpus.env_lines(s) + ["init 0"] + corpus.source_lines(s) + ["filter 0 -1 0", "load 0"]
+        if s["kind"] == "synthetic":
+            for fl, tag in ((0, "v3"), (2, "v2")):
+                p = os.path.join(gdir, "g%d-%s.xml" % (k, tag))
+                lines.append("xml_export 0 file %s %d 0" % (p, fl))
+                gen.append({"id": "genxml:%s:%s" % (tag, s["desc"]), "kind": "xml", "path": p, "env": {}, "of": s["id"]})
+        behs.append("\n".join(lines + ["destroy 0"]) + "\n")
+    bf = ctx.path("prepass-c01.beh")
+    open(bf, "w").write("".join(behs))
+    tf = bf + ".ndjson"
+    ctx.record(exe, bf, tf, timeout=1800, parallel=vlib.NCPU)
+    present, b = {}, -1
+    for line in open(tf):
+        if line.startswith('{"e":"Reset"'):
+            b += 1
+        elif line.startswith('{"e":"load"') and 0 <= b < len(srcs):
+            try:
+                e = json.loads(line)
+                t = e.get("topo") or (e.get("topos") or [None])[0]
+                if t and t.get("objs"):
+                    present[srcs[b]["id"]] = sorted(set(o["type"] for o in t["objs"]))
+            except ValueError:
+                pass
+    gen = [g for g in gen if os.path.exists(g["path"])]
+    for g in gen:
+        present[g["id"]] = present.get(g["of"], [])
+    return present, gen
+
+
 def make_replay(ctx, exe, module="TraceTopo", env=None):
     def replay_fn(text):
         p = ctx.path("replay-%d.beh" % random.randrange(1 << 30))
@@ -85,15 +121,42 @@ def run(ctx, replay=None):
     ctx.extra["configurations_enumerated"] = len(cfgs)
     ctx.extra["configurations_simulated"] = len(simcfgs)
 
+    # (3) exhaustive: every configuration reachable with two filter calls (flags 0): the source of the type-targeted configurations below
+    out, st = ctx.tlc_mc("MC_Load_gen", cfg_text([0], targets, 2), tag="cfg_bfs2", workers=8,
+                         extra_modules=[("MC_Load_gen.tla", gen_module([0], targets))])
+    if st["error"] or st["rc"] != 0:
+        raise vlib.Infra("MC_Load (2 filter calls) failed: %s\n%s" % (st["error"], out[-2000:]))
+    two = {}
+    for h in vlib.tlc_printed(out, "CFG"):
+        calls = [x for x in h[1:] if x[0] == "filter"]
+        two[tuple((x[1], x[2]) for x in calls)] = h[1:]
+    ctx.extra["configurations_two_filter_calls"] = len(two)
+
     srcs = all_sources(ctx)
+    present, gen = prepass(ctx, exe, srcs)
+    srcs += gen
+    ctx.extra["generated_xml_sources"] = len(gen)
     per_src = 30 if thorough else 3
     behs = []
+
+    def targeted(s):
+        """configurations of the model that remove, or keep only when structuring, a type that this source really has"""
+        res = []
+        types = [t for t in present.get(s["id"], []) if t not in (0, 4, 14)]       # Machine, PU and NUMANode filters cannot be changed
+        small = s["kind"] in ("synthetic",) or s["id"].startswith("genxml:")
+        if not thorough and not small:
+            types = rng.sample(types, min(2, len(types)))
+        for t in types:
+            for key in (((t, 1),), ((-1, 0), (t, 1)), ((-1, 0), (t, 2)), ((t, 1), (-1, 0))):
+                if key in two:
+                    res.append(two[key])
+        return res
     # presets every source gets: default, all KEEP_ALL (+ INCLUDE_DISALLOWED), all KEEP_STRUCTURE
     presets = [[["load", 0, 0, 0]],
                [["filter", -1, 0, 0], ["flags", 1, 0, 0], ["load", 0, 0, 0]],
                [["filter", -1, 2, 0], ["load", 0, 0, 0]]]
     for s in srcs:
-        picks = list(presets) + rng.sample(cfgs, min(per_src, len(cfgs))) + rng.sample(simcfgs, min(per_src, len(simcfgs)))
+        picks = list(presets) + rng.sample(cfgs, min(per_src, len(cfgs))) + rng.sample(simcfgs, min(per_src, len(simcfgs))) + targeted(s)
         for h in picks:
             if s["kind"] == "live" and any(x[0] == "flags" and (x[1] & 48) for x in h):
                 continue       # RESTRICT_TO_*BINDING on the live machine depends on the caller's binding: not driven (DESIGN residual)
@@ -108,7 +171,8 @@ def run(ctx, replay=None):
     return ctx.finish(
         rule="configurations (sequences of legal and illegal filter/flag calls) are enumerated (BFS, <=1 filter call x flag words) and simulated (<=4 filter calls) by TLC "
              "from MC_Load.tla; each source (27 synthetic families, bundled XML files, Linux snapshots, x86 CPUID dumps, the live machine) is loaded for real under the three presets "
-             "plus seeded picks of those configurations; every successful load is judged by WellFormed (Topology.tla). A behaviour is non-trivial when load was attempted.",
+             "plus seeded picks of those configurations plus, for every type the source really contains, the two-call configurations of the model that remove it "
+             "(alone, and with every other type kept) or keep it only when structuring; synthetic families are also loaded from their own XML exports (v3 and v2 formats); every successful load is judged by WellFormed (Topology.tla). A behaviour is non-trivial when load was attempted.",
         assumptions=["sources that need hardware (CUDA, NVML, Windows ...) are not built here",
                      "RESTRICT_TO_*BINDING flags are not driven on the live machine",
                      "the configuration x source product is sampled per source (seeded), not exhausted, in the quick tier"],
